@@ -268,7 +268,8 @@ package constraint
 //@   props C02
 //@   requires len(value) <= 1000000000000
 //@   maypanic
-//@   ensures plainQuoted(value) ==> (panics <==> len(value) - 2 < c.value)
+//@   ensures panics <==> old(decLen(value)) < c.value
+//@   ensures old(plainQuoted(value)) ==> (panics <==> len(value) - 2 < c.value)
 //@   ensures !(len(value) >= 2 && value[0] == '"' && value[len(value)-1] == '"') ==> (panics <==> len(value) < c.value)
 //@   ensures panics ==> typeis(pv, errors.Errorf) && unbox(pv, errors.Errorf).code == errors.ErrConstraintStringLengthValidation && errWF(pv)
 
@@ -276,7 +277,8 @@ package constraint
 //@   props C02
 //@   requires len(value) <= 1000000000000
 //@   maypanic
-//@   ensures plainQuoted(value) ==> (panics <==> len(value) - 2 > c.value)
+//@   ensures panics <==> old(decLen(value)) > c.value
+//@   ensures old(plainQuoted(value)) ==> (panics <==> len(value) - 2 > c.value)
 //@   ensures !(len(value) >= 2 && value[0] == '"' && value[len(value)-1] == '"') ==> (panics <==> len(value) > c.value)
 //@   ensures panics ==> typeis(pv, errors.Errorf) && unbox(pv, errors.Errorf).code == errors.ErrConstraintStringLengthValidation && errWF(pv)
 
